@@ -122,7 +122,7 @@ Qed.
       (generated as partial functions, None = panic): on the packed id of ANY of the seven kinds
       the conversion to element kind K returns the reference exactly when the id IS of kind K
       and panics otherwise.  So an identifier never decodes as another kind through them.
-      (Before fix 8da90bd in /repo the guard was a subset test and relation ids converted to
+      (Before fix 8024a58 in /repo the guard was a subset test and relation ids converted to
       nodes and ways: C10_old_guard_witness records the witness.) *)
 Theorem C10_conv_feature : forall K k r v,
   is_element K = true -> in_range r v ->
